@@ -243,7 +243,7 @@ def lifecycle_history(ops: List[str]) -> Tuple[List[Any], Dict[str, Any]]:
     EventManager (dispatcher thread, real multiprocessing.Queue), next to a witness subscriber that stays subscribed.
     Model: the object's callback receives exactly the events published while it is subscribed, in order.
     Requests and publishes travel through one queue in order, so no waiting is needed between ops except for the relay thread
-    of an unsubscribed object to end.  At the end a sentinel is published; once the WITNESS has it, the object gets three more
+    of an unsubscribed object to end.  At the end a sentinel is published; once the WITNESS has it, the object gets ten more
     seconds for what it is still owed - the judgement is relative to the witness, not to absolute time."""
     import time
     from proxy.core.event import EventManager, EventSubscriber
@@ -267,7 +267,7 @@ def lifecycle_history(ops: List[str]) -> Tuple[List[Any], Dict[str, Any]]:
             t1 = time.time() + 30
             while n and time.time() < t1 and (not wit or wit[-1] != n):
                 time.sleep(0.01)
-            t2 = time.time() + 3
+            t2 = time.time() + 10
             while time.time() < t2 and len(got) < len(want):
                 time.sleep(0.01)
         for op in ops:
@@ -302,7 +302,7 @@ def lifecycle_history(ops: List[str]) -> Tuple[List[Any], Dict[str, Any]]:
         while time.time() < deadline and (not wit or wit[-1] != n):
             time.sleep(0.02)
         witness_done = bool(wit) and wit[-1] == n
-        t_end = time.time() + 3
+        t_end = time.time() + 10
         while time.time() < t_end and len(got) < len(want):
             time.sleep(0.02)
         try:
